@@ -29,6 +29,7 @@ META["text"] += ' R2 requires the union to be a new dict (an in-place update wou
 META["text"] += ' R3 also: the flag stores are executed for every repeated record (not inside a branch of the tally-pool reconciliation).'
 META["text"] += ' R1 refutes grouping by itertools.groupby over the unsorted list (adjacent records only).'
 META["text"] += ' R5 also: the row loop skips no row.'
+META["text"] += ' R3 also: phantom, pool, tally_pool, votes and id are plain attributes of a CVR.'
 
 SPEC_TP = '''
 def spec(old, new):
